@@ -116,7 +116,13 @@ Proof.
   destruct (file_image is xml Hwf)
     as (outs & secs & log & Hres & Hfl & Hfile & Hlaid & Hal & HlenL & Hphys & Hlenlog & Hlog).
   cbv zeta in *. unfold roundtrip_ok. unfold file_of in Hfile.
-  set (body := concat secs) in *. set (LL := len (ls_data (final_stream is xml))) in *.
+  (* the state of the paged writer after the program: from here on a variable *)
+  revert Hres Hfl Hfile. generalize (wrun (file_prog is xml) pw0). intros [s r] Hres Hfl Hfile.
+  cbn [fst snd] in Hres, Hfl, Hfile. subst r.
+  (* likewise the final logical stream: all that matters is in the hypotheses *)
+  revert Hxml Hsize HlenL Hphys Hlenlog Hlog. generalize (final_stream is xml).
+  intros fs Hxml Hsize HlenL Hphys Hlenlog Hlog.
+  set (body := concat secs) in *. set (LL := len (ls_data fs)) in *.
   set (PL := pages_for LL * 1024) in *. set (XO := phys_of_log (48 + len body)) in *.
   rewrite Hphys in Hsize |- *.
   assert (Hmod : len log mod 1020 = 0) by lia.
@@ -124,8 +130,7 @@ Proof.
   assert (Hxne : 0 < len xml \/ LL < pages_for LL * 1020).
   { destruct Hxml as [Hx|Hx]; [left; apply len_nonnil in Hx; lia|right].
     unfold pages_for, PAYLOAD_SZ in *. lia. }
-  exists outs, (fst (wrun (file_prog is xml) pw0)).
-  split; [destruct (wrun (file_prog is xml) pw0) as [s r]; cbn [fst snd] in *; subst r; reflexivity|].
+  exists outs, s. split; [reflexivity|].
   split; [exact Hfl|]. cbv zeta. rewrite Hfile.
   assert (Hlenf : len (paginate log) = PL).
   { rewrite len_paginate, (pages_for_divisible _ Hmod), Hlenlog. subst PL. lia. }
